@@ -31,6 +31,12 @@ func verifC02Case(vc *verifCtx, i int, sysCrashAt int, schedSeedIdx int) {
 	defer e.Close()
 	e.richAdds = true
 	e.oracles = map[string]bool{"tx_exact": false}
+	// crash points between the durable writes of one handler: in a third of
+	// the cases every committed write transaction is followed by a fork.
+	if fr.Chance(1, 3) {
+		e.midCommitForks = true
+		e.armCommitHooks()
+	}
 	check := func(label string) {
 		if e.ended {
 			return
